@@ -416,7 +416,8 @@ def Qbfs_seq(ns, x):
 
     ns = list(ns)
     min_i = 0
-    out = np.empty((len(ns), *x.shape), dtype=x.dtype)
+    # rows hold what the recurrence produces: floats, also for integer coordinates
+    out = np.empty((len(ns), *x.shape), dtype=np.result_type(x, 1.0))
 
     rho = x ** 2
     # c_Q is the leading term used to convert Qm to Qbfs
@@ -916,7 +917,8 @@ def Q2d_seq(nms, r, t):
                 Qnm1 = Qn
 
     j = 0
-    out = np.empty((len(nms), *x.shape), dtype=x.dtype)
+    # rows hold what the recurrence produces: floats, also for integer coordinates
+    out = np.empty((len(nms), *x.shape), dtype=np.result_type(x, 1.0))
     for n, m in nms:
         if m != 0:
             if m < 0:
